@@ -16,6 +16,8 @@ MIRI_BOXCAR_SCRIPTS = [dict(name=f"boxcar-script-{k}", argv=["boxcar-script", st
 MIRI_NUCLEO = dict(name="nucleo", argv=["nucleo", "1", "16"], seeds=32)
 MIRI_EVENTLOOP = dict(name="eventloop", argv=["eventloop", "1", "40"], seeds=64, timeout=3000)
 MIRI_KINDS = [dict(name=f"kinds-{v}", argv=["kinds", str(v)], seeds=2, timeout=3000) for v in (0, 1)]
+MIRI_BOXCAR_FAULTS = [dict(name=f"boxcar-faults-{c}", argv=["boxcar-faults", str(c)], seeds=1, timeout=1200,
+                           flags="-Zmiri-tree-borrows -Zmiri-permissive-provenance") for c in (1, 32)]
 MIRI_SORT = dict(name="sort", argv=["sort", "4100", "2"], seeds=2, timeout=1500)
 
 PROPERTIES = {
@@ -71,11 +73,12 @@ PROPERTIES = {
         oracle="Oracle: drop ledger per item (exactly one drop by the end of the execution, after every simulated "
                "thread has finished; no drop of a stored item while an injector of its stream is alive, its stream "
                "is current or the last checked snapshot shows it; every read validates canary + ledger: no use "
-               "after drop); allocator seam for matcher-column strings (none live at the end, none freed twice). "
+               "after drop); allocator seam for matcher-column strings (none live at the end - also not those a fill "
+               "callback stored before it panicked -, none freed twice). "
                "Fault plan enumerates panic positions and lie sizes relative to the bucket geometry.",
-        assumptions=COMMON_ASSUMPTIONS + [
-            "column strings written by a fill callback before it panics are not required to be freed (reported as information)"],
-        probes_expected=["ledger.items_created", "alloc.tracked_column_strings"],
+        assumptions=COMMON_ASSUMPTIONS,
+        probes_expected=["ledger.items_created", "alloc.tracked_column_strings", "fault.fill_panics_survived"],
+        miri=MIRI_BOXCAR_FAULTS,
     ),
     "C12": dict(
         quick_runs=400_000, thorough_runs=6_000_000, level="exploration",
